@@ -13,7 +13,7 @@ import (
 
 func init() { register("C15", "exploration", c15Main, c15Replay) }
 
-var c15Alpha = []string{";", "'", "\"", "`", "\\", "/", "\n", "a", "0", ".", "e", "x", " ", "!", "=", "é", "\xff"}
+var c15Alpha = []string{";", "'", "\"", "`", "\\", "/", "\n", "a", "0", ".", "e", "x", " ", "!", "=", "é", "\xff", "\r", "\ufeff"}
 
 // hand-written corpus used for the "semicolon at every byte offset" sweep until
 // the grammar corpus is linked in (c15Corpus is extended by gen-based programs).
@@ -38,6 +38,9 @@ var c15Base = []string{
 	"T | where 1e+ ; U | where 0x ; V | where ! ; W",
 	"T|where a.b.c==1;U|project`q`",
 	"T | where \"a\\\\\";U",
+	"T | where msg == \"a\rb;c\" | count",
+	"T // progress\r100%; done\n| count",
+	"let n = 5;\ufeffT | take n",
 	"é;T\xff;'\xff;';",
 }
 
@@ -48,7 +51,7 @@ func c15Main(r *run.Runner) {
 	r.Assume = []string{"reference tokenizer reftok for the independent semicolon count"}
 	n := 5
 	if r.Thorough() {
-		n = 7
+		n = 6
 	}
 	e := enum.Strings{Alpha: c15Alpha, MaxLen: n, Split: 2}
 	r.Extra["bounds"] = map[string]any{"alphabet_size": len(c15Alpha), "max_len": n, "strings": e.Total(), "corpus_programs": len(c15Corpus())}
@@ -58,6 +61,16 @@ func c15Main(r *run.Runner) {
 			return !w.Stopped()
 		})
 	})
+	if r.Thorough() {
+		// one symbol longer on the quote / comment / semicolon core of the alphabet
+		core := enum.Strings{Alpha: []string{";", "'", "\"", "`", "\\", "/", "\n", "a", "0", "e", " ", "\r"}, MaxLen: 7, Split: 2}
+		r.Sweep("bytes12-core", core.Items(), func(w *run.Worker, item int64) {
+			core.Do(item, func(buf []byte, _ []int) bool {
+				c15One(w, string(buf))
+				return !w.Stopped()
+			})
+		})
+	}
 	corpus := c15Corpus()
 	r.Sweep("semicolon-insertion", int64(len(corpus)), func(w *run.Worker, item int64) {
 		p := corpus[item]
